@@ -102,6 +102,7 @@ type World struct {
 	// KeepSnaps: keep Pre/Post on recorded steps (memory heavy); default false => dropped after monitors ran.
 	KeepSnaps     bool
 	Dead          bool   // a panic escaped BeginBlock/EndBlock/Commit
+	seq           int    // running number of this world in the process (trace)
 	ConsensusHalt string // CometBFT-side validation refused a validator update list
 	MonitorPanics []string
 	// IgnoreValSetErr: keep driving the application after the consensus-side model refused an update list
@@ -115,7 +116,9 @@ type World struct {
 }
 
 func NewWorld(c *sim.Chain, r *rand.Rand) *World {
-	w := &World{C: c, R: r, Dt: 20 * time.Second, AVSAddr: c.Gen.AVSAddr}
+	traceInit()
+	worldSeq++
+	w := &World{C: c, R: r, Dt: 20 * time.Second, AVSAddr: c.Gen.AVSAddr, seq: worldSeq}
 	for _, a := range c.Gen.Cfg.Assets {
 		w.Assets = append(w.Assets, &Asset{ID: a.ID(), Lz: a.LzChainID, Addr: common.HexToAddress(a.Address).Bytes(), Decimals: a.Decimals, NST: a.NST})
 	}
@@ -187,6 +190,7 @@ func (w *World) finish(st *Step) *Step {
 	st.Post = w.C.Snapshot()
 	w.Last = st.Post
 	w.Steps = append(w.Steps, st)
+	w.trace(st)
 	w.runMonitors(st)
 	if !w.KeepSnaps {
 		st.Pre, st.Post = nil, nil
@@ -501,6 +505,7 @@ func (w *World) EndBlock() *Step {
 		st.Panic = w.C.Panics[n].Value
 		w.Dead = true
 		w.Steps = append(w.Steps, st)
+		w.trace(st)
 		w.runMonitors(st)
 		return st
 	}
@@ -514,15 +519,25 @@ func (w *World) NextBlock(dt time.Duration) *Step {
 	st := w.newStep("begin_block", "block")
 	n := len(w.C.Panics)
 	ok := w.C.Commit()
+	if ok && restartEach > 0 && w.C.Height()%restartEach == 0 {
+		// replica variant of C08: the node is stopped after this committed block and started again
+		if err := w.C.Restart(); err != nil {
+			ok = false
+			w.C.Panics = append(w.C.Panics, sim.PanicInfo{Phase: "Restart", Value: err.Error()})
+		}
+	}
 	if ok {
 		ok = w.C.BeginBlock(dt)
 	}
 	st.Height = w.C.Height()
 	st.P["dt"] = dt.String()
 	if !ok {
-		st.Panic = w.C.Panics[n].Value
+		if len(w.C.Panics) > n {
+			st.Panic = w.C.Panics[n].Value
+		}
 		w.Dead = true
 		w.Steps = append(w.Steps, st)
+		w.trace(st)
 		w.runMonitors(st)
 		return st
 	}
